@@ -126,7 +126,7 @@ class CoqBuild:
 
 
 class Check:
-    def __init__(self, pid, tier="quick", seed=0, replay=None):
+    def __init__(self, pid, tier="quick", seed=0, replay=None, keep_replays=False):
         self.pid = pid
         self.tier = tier
         self.seed = int(seed)
@@ -149,9 +149,17 @@ class Check:
         self.scratch = Path(tempfile.mkdtemp(prefix="run-%s-" % pid, dir=SCRATCH_ROOT))
         self.sections = {}
         self._replay_n = 0
-        if replay is None:
+        if replay is None and not keep_replays:
             for old in (VERIF / "replays").glob("%s-*.json" % pid):
                 old.unlink()
+        # breadcrumb: the last case registered with count(), readable by the parent process if this one dies
+        self._crumb = None
+        if not keep_replays:
+            try:
+                (VERIF / "replays").mkdir(exist_ok=True)
+                self._crumb = os.open(str(VERIF / "replays" / (".crumb-%s" % pid)), os.O_WRONLY | os.O_CREAT | os.O_TRUNC, 0o644)
+            except OSError:
+                self._crumb = None
 
     # ------------------------------------------------------------ utilities
     def rng(self, name=""):
@@ -186,6 +194,12 @@ class Check:
     def count(self, key, nontrivial=True, bucket=None):
         """Register one evaluated case; `key` identifies it for distinctness."""
         self.cov["evaluations"] += 1
+        if self._crumb is not None:
+            try:
+                b = ("evaluation #%d bucket=%s key=%s" % (self.cov["evaluations"], bucket, repr(key)[:400])).encode()[:600]
+                os.pwrite(self._crumb, b + b" " * (600 - len(b)), 0)
+            except OSError:
+                pass
         if nontrivial:
             k = hashlib.md5(repr(key).encode()).digest()
             self._distinct.add(k)
